@@ -131,6 +131,29 @@ func (c *Check) respondRules(prefix string) {
 	// changes made before a rejecting return then never persist
 	reverts := c.errorAlwaysPropagated(f)
 	for _, pa := range c.P.PathsOf(f) {
+		if pa.Exit == ExitRevert {
+			// whether a response is admitted is a matter of the request alone (found, addressed to the responder, still
+			// pending) and of the response's own content: no rejecting exit tests a field of the context or of the
+			// binding (a context paused or killed after the batch was issued still owes its providers their answers)
+			var last *Event
+			for _, ev := range pa.Events {
+				if ev.Kind == EvFact {
+					last = ev
+				}
+			}
+			if last != nil {
+				foreign := ""
+				last.Fact.T.Walk(func(t *Term) bool {
+					if strings.HasPrefix(t.Op, ".RequestContext.") || strings.HasPrefix(t.Op, ".ServiceBinding.") {
+						foreign = t.Op
+					}
+					return true
+				})
+				if foreign != "" {
+					add("rejects-on-request-alone", "a response is turned away on "+shortTerm(last.Fact.T), pa)
+				}
+			}
+		}
 		if !pa.OK() && reverts {
 			continue
 		}
@@ -327,6 +350,7 @@ func (c *Check) respondRules(prefix string) {
 		{"marker-deleted", "each accepted response deletes both active markers exactly once"},
 		{"admission", "acceptance is dominated by found ∧ provider match ∧ active marker for the same id"},
 		{"admission-order", "every rejecting check precedes all effects"},
+		{"rejects-on-request-alone", "no rejecting exit of the respond function tests a field of the request context or of the binding"},
 		{"reject-after-effect", "no rejecting return follows a direct state change"},
 		{"marker-key", "the by-binding marker key is built from the request being settled"},
 		{"refund-args", "refund recipient/amount are R.Consumer / R.ServiceFee of the settled request"},
@@ -381,6 +405,14 @@ func (c *Check) expiredRequestRules(prefix string) {
 		}
 		if !sm && !nsm && len(refunds) > 0 {
 			add("refund-at-expiry", "refund not decided by SuperMode", pa)
+		}
+		// the refund is skipped under a compound condition ("not super mode and the binding is still available") that the
+		// path refuted as a whole: nothing on the path says the request was made in super mode
+		if !sm && !nsm && len(refunds) == 0 {
+			smT := parseTerm("(.Request.SuperMode " + u.ER.ValP + ")")
+			if !af.Holds(smT, true) {
+				add("refund-at-expiry", "an expired request is not refunded on a path that has not established super mode", pa)
+			}
 		}
 		for _, e := range refunds {
 			if e.To.String() != "(.Request.Consumer "+u.ER.ValP+")" || e.Amount.String() != "(.Request.ServiceFee "+u.ER.ValP+")" {
@@ -695,7 +727,17 @@ func (c *Check) withdrawRules(prefix string) {
 			if len(del19) != 1 || del19[0].String() != ownerP {
 				add("owner-reset", "the owner total is not deleted exactly once", pa)
 			}
-			// provider records of every provider of the owner (when the scan yields one)
+			// provider records of every provider of the owner (when the scan yields one): a path that enters the scan's loop
+			// deletes the records of the provider it found (none is skipped: what was paid is the total over all of them)
+			entered := false
+			for _, ev := range pa.Events {
+				if ev.Kind == EvLoop {
+					entered = true
+				}
+			}
+			if entered && len(del18) == 0 {
+				add("owner-reset", "a provider found by the scan of the owner's providers keeps its earnings records", pa)
+			}
 			for _, d := range del18 {
 				if !c.P.scansFamily(d, "0x05") || !d.ContainsAtom(ownerP) {
 					add("owner-reset", "a provider record outside the owner's provider index is deleted: "+shortTerm(d), pa)
